@@ -74,8 +74,8 @@ def plan(tier, seed):
     shards.append({'kind': 'unary', 'part': 1, 'parts': 2})
     shards.append({'kind': 'typing'})
     if tier == 'quick':
-        for i in range(8):
-            shards.append({'kind': 'random', 'n': 6000, 'part': i})
+        for i in range(12):
+            shards.append({'kind': 'random', 'n': 4000, 'part': i})
         for i in range(4):
             shards.append({'kind': 'exact', 'n': 4500, 'part': i})
         shards.append({'kind': 'errors', 'n': 2500, 'part': 0})
